@@ -199,6 +199,39 @@ func VH_C20_Inscribe() {
 	vreach("inscribe-done")
 }
 
+// C20-I2: two inscriptions made with one prefix object (an address script as the library's own
+// constructor builds it, spare capacity included): the second call must not disturb the first
+// output, nor the caller's prefix.
+func VH_C20_InscribeTwice() {
+	h := vnondetBytes("pkh", 20, 20)
+	lock, err := bscript.NewP2PKHFromPubKeyHash(h)
+	vassume(err == nil)
+	prefixGhost := append([]byte{}, *lock...)
+	tx := bt.NewTx()
+	var cts [2][]byte
+	var datas [2][]byte
+	for i := 0; i < 2; i++ {
+		cts[i] = vnondetBytes("content-type", 1, 1)
+		vassume(cts[i][0] >= 0x20 && cts[i][0] < 0x7f)
+		datas[i] = vnondetBytes("data", 1, 2)
+		err := tx.Inscribe(&bscript.InscriptionArgs{LockingScriptPrefix: lock, Data: datas[i], ContentType: string(cts[i])})
+		vassert(err == nil && len(tx.Outputs) == i+1, "C20: twice: Inscribe adds one output")
+		if err != nil || len(tx.Outputs) != i+1 {
+			return
+		}
+	}
+	vassert(vbytesEq(*lock, prefixGhost), "C20: twice: the caller's prefix script is unchanged")
+	for i := 0; i < 2; i++ {
+		ia, err := tx.Outputs[i].LockingScript.ParseInscription()
+		vassert(err == nil, "C20: twice: inscription parses back")
+		if err == nil {
+			vassert(vand(vbytesEq(ia.Data, datas[i]), ia.ContentType == string(cts[i])), "C20: twice: each output keeps its own content type and data")
+			vassert(vbytesEq(*ia.LockingScriptPrefix, prefixGhost), "C20: twice: each output keeps the prefix")
+		}
+	}
+	vreach("inscribe-twice-done")
+}
+
 // C20-O1b: the two-dummy variant of accepting a listing: inputs [dummy, dummy, ordinal, payment...],
 // outputs [dummies passed through, buyer's ordinal, seller payment, change].
 func VH_C20_ListAccept2D() {
